@@ -268,7 +268,7 @@ class BaseMultiBandFitter(BaseFitter):
                 sky = band_fitter.prior.sample_sky(band_fitter.renderer.X, band_fitter.renderer.Y)
                 obs = out + sky
                 all_obs.append(obs)
-                band_fitter.loss_func(obs, band_fitter.data, band_fitter.rms, band_fitter.mask, suffix = f'_{band_name}')
+                band_fitter.loss_func(obs, band_fitter.data, jnp.where(band_fitter.mask, band_fitter.rms, 1.0), band_fitter.mask, suffix = f'_{band_name}')
             if return_model:
                 deterministic('model', jnp.array(all_obs))
         return model
